@@ -82,6 +82,38 @@ def refine_mpint(off, neg):
     return lambda: (e1.setup(), vc.run_unit('refine', thunk))[1]
 
 
+def refine_compose_array(fac, fb, w, n):
+    """ComposerBinary.compose_parsable_array: the real body (item.compose() of every item, joined) against its contract for
+    a sequence of n coded items with symbolic codes (known members, GREASE and unknown fallback items alike); the contract
+    also has to predict the AttributeError of members that have no compose() method"""
+    from contracts.common_base import coded_spec
+    from cryptoparser.common.parse import ComposerBinary
+    fn = ComposerBinary.compose_parsable_array
+
+    def thunk():
+        P = E.cur()
+        sp = coded_spec(fac.get_enum_class(), fb, w)
+        codes = [z3.Int('code_%d' % i) for i in range(n)]
+        for c in codes:
+            P.assume(z3.And(c >= 0, c < 256 ** w))
+        P.inputs['codes'] = [SInt(c) for c in codes]
+        items = [I.materialize(V.SCoded(sp, c)) for c in codes]
+        c1, c2 = I.construct(ComposerBinary, [], {}), I.construct(ComposerBinary, [], {})
+        got = common.run_body(fn, [c1, items])
+        at = (lambda j: z3.IntVal(0)) if n == 0 else (lambda j, cs=codes: z3.If(j == 0, cs[0], cs[-1]))
+        seq = V.SSeq(z3.IntVal(n), at, 'list', ('coded', sp))
+        want = vc.outcome_of(lambda: CP.spec_compose_parsable_array(c2, seq))
+        vc.oblige_same_outcome(P, 'outcome', got, want)
+        vc.oblige_equal(P, 'composer state', c1.f, c2.f)
+
+    def run():
+        e1.setup()
+        r = vc.run_unit('refine', thunk, max_paths=400)
+        r.extra['bounded'] = ['sequence of exactly %d item(s); every code symbolic over its code space' % n]
+        return r
+    return run
+
+
 def units(tier, seed, include_numeric=True, include_enum=True):
     from cryptoparser.tls.ciphersuite import TlsCipherSuiteFactory, SslCipherKindFactory
     from cryptoparser.tls.subprotocol import TlsCompressionMethodFactory
@@ -104,6 +136,10 @@ def units(tier, seed, include_numeric=True, include_enum=True):
         out.append(Unit('foundation/refine/_parse_parsable_derived_array[%s,%s]' % (ics[0].__name__, getattr(fb, '__name__', None)),
                         refine_derived_array(ics, fb), search=search_derived_array(ics, fb), clause='contract refinement',
                         functions=['ParserBinary._parse_parsable_derived_array']))
+    for fac, fb, w in ((TlsCipherSuiteFactory, TlsInvalidTypeTwoByte, 2), (TlsCompressionMethodFactory, TlsInvalidTypeOneByte, 1)):
+        for n in (0, 1, 2):
+            out.append(Unit('foundation/refine/compose_parsable_array[%s,n=%d]' % (fac.__name__, n), refine_compose_array(fac, fb, w, n),
+                            clause='contract refinement', functions=['ComposerBinary.compose_parsable_array']))
     for off in (0, 4):
         for neg in (False, 'sym'):
             out.append(Unit('foundation/refine/_parse_mpint[offset=%d,negative=%s]' % (off, neg), refine_mpint(off, neg),
